@@ -25,6 +25,7 @@ func main() {
 	dump := flag.String("dump", "", "debug: dump SSA of pkg:func, e.g. mqtt:(*Server).processPublish")
 	list := flag.Bool("list", false, "list registered properties")
 	meta := flag.Bool("meta", false, "print registered properties as JSON")
+	genRef := flag.Bool("gen-refnames", false, "print the reference variable-name table of the loaded tree (checker/refnames.json)")
 	flag.Parse()
 
 	if *meta {
@@ -66,6 +67,11 @@ func main() {
 		os.Exit(2)
 	}
 	theCtx = c
+	if *genRef {
+		c.canon = nil
+		os.Stdout.Write(genRefNames(c))
+		return
+	}
 	if *dump == "dyn" {
 		debugDyn(c)
 		return
